@@ -19,6 +19,8 @@ Theorems (all over Model/Routing.lean applied to the tables regenerated from /re
   metadata_served_from_cache / metadata_autocreate_decision / metadata_autocreate_unknown / topicsToRefresh_spec / refreshDone_spec
                             roundTrip's metadata arm: served from the cache unless auto-creation meets an unknown topic; what it then waits for
   layout_sources            makeLayout/makePartitions field copies (regenerated tables) agree with the model's
+  layout_omits_internal     makeLayout never lists an internal topic, so refreshMetadata cannot see one appear (observation)
+  negotiated_unlisted       an API the broker does not list: version 0 if the client supports it, else refused client-side
   parts_cover_splitters     every Splitter type of the source has a split model (regenerated table, decide)
   split_resources_partition / split_resources_target / split_brokers_cover   DescribeConfigs and ListGroups parts: every resource / broker exactly once, at the right broker
 -/
@@ -148,7 +150,7 @@ theorem route_listoffsets_leader (c : Cluster) (tn : String) (p : Int) (t : Topi
     (hp : t.partitions.find? (fun e => e.2.id == p) = some (p, part))
     (hl : c.brokers.lookup part.leader = some br) :
     leaderFirst c [(tn, [p])] = .ok br.id := by
-  simp [leaderFirst, lookupD, ht, hp, hl]
+  simp [leaderFirst, listOffsetsBroker, lookupD, ht, hp, hl]
 
 /-- … and a ListOffsets part is never sent to a broker the layout does not designate: the target is the listed
 leader of the part's partition, or −1 (the control connection; any broker then answers with the error code)
@@ -158,13 +160,13 @@ theorem route_listoffsets_designated (c : Cluster) (tn : String) (p : Int) (ps :
     (rest : List (String × List Int)) (b : Int) (h : leaderFirst c ((tn, p :: ps) :: rest) = .ok b) :
     b = -1 ∨ ∃ e br, (lookupD c.topics tn Topic.zero).partitions.find? (fun e => e.2.id == p) = some e ∧
       c.brokers.lookup e.2.leader = some br ∧ br.id = b := by
-  simp only [leaderFirst] at h
-  split at h
-  · next e he =>
-    split at h
-    · next br hbr => injection h with h; exact Or.inr ⟨e, br, he, hbr, h⟩
-    · injection h with h; exact Or.inl h.symm
-  · injection h with h; exact Or.inl h.symm
+  simp only [leaderFirst, listOffsetsBroker] at h
+  cases he : (lookupD c.topics tn Topic.zero).partitions.find? (fun e => e.2.id == p) with
+  | none => simp [he] at h; exact Or.inl h.symm
+  | some e =>
+    cases hbr : c.brokers.lookup e.2.leader with
+    | none => simp [he, hbr] at h; exact Or.inl h.symm
+    | some br => simp [he, hbr] at h; exact Or.inr ⟨e, br, rfl, hbr, h⟩
 
 example : (match leaderFirst ⟨0, [(0, ⟨0, "b0", 9092, ""⟩), (1, ⟨1, "b1", 9092, ""⟩)],
     [("t", ⟨"t", 0, [(0, ⟨0, 0, 7, [], [], []⟩)]⟩)]⟩ [("t", [0])] with | .ok b => b | .error _ => 0) = -1 := by decide
@@ -228,6 +230,11 @@ example :
 fact; comparing fewer fields (e.g. only the host) would leave a re-registered broker's group at its old address -/
 theorem update_compares_whole_broker : updateCompare = .whole := by decide
 
+/-- the source applies the delete set before the add set (a changed broker is in both and must end up with its new
+group), and classifies ids exactly as the model's explicit sets do (`addSet_eq`, `delSet_eq` over the regenerated
+`updateNewEntry` / `updateOldEntry`) -/
+theorem update_deletes_before_adding : updateApplyOrder = [.del, .add] := by decide
+
 /-- the source sends over a broker's own connection group exactly for ids ≥ 0 (0 is a valid broker id) -/
 theorem broker_conn_guard (id : Int) : usesBrokerConn id = decide (0 ≤ id) := by
   unfold usesBrokerConn; congr 1
@@ -241,7 +248,7 @@ theorem update_follows (s : PoolState) (m : MResponse) (h : ConnsInv s) :
     (update s (some m) false).layout = makeLayout (normalize m) ∧
     (update s (some m) false).err = false ∧
     ConnsInv (update s (some m) false) :=
-  ⟨rfl, rfl, rfl, Lemmas.Routing.update_connsInv update_compares_whole_broker s (some m) false h⟩
+  ⟨rfl, rfl, rfl, Lemmas.Routing.update_connsInv update_compares_whole_broker update_deletes_before_adding s (some m) false h⟩
 
 /-- a failed refresh never replaces a known cluster view -/
 theorem update_error_keeps_known (s : PoolState) (m : Option MResponse) (h : s.metadata.isSome = true) :
@@ -261,7 +268,7 @@ theorem conns_invariant (hist : List (Option MResponse × Bool)) :
   | nil => intro s hs; exact hs
   | cons e es ih =>
     intro s hs
-    exact ih _ (Lemmas.Routing.update_connsInv update_compares_whole_broker s e.1 e.2 hs)
+    exact ih _ (Lemmas.Routing.update_connsInv update_compares_whole_broker update_deletes_before_adding s e.1 e.2 hs)
 
 /-- after a leader moved (or a broker re-registered at another host/port) and the refresh delivered `m`, a
 produce/fetch request for partitions that `m` says are led by broker `b` is sent to `b` at the address `m` gives -/
@@ -341,7 +348,7 @@ theorem refresh_loop_survives_faults (es : List DEvent) (s s' : DState)
 theorem step_connsInv (guards : List ExitGuard) (s s' : DState) (e : DEvent)
     (hs : step guards s e = some s') (h : ConnsInv s.pool) : ConnsInv s'.pool := by
   cases e <;> simp only [step] at hs <;> split at hs <;> (try cases hs) <;>
-    first | exact h | exact Lemmas.Routing.update_connsInv update_compares_whole_broker _ _ _ h
+    first | exact h | exact Lemmas.Routing.update_connsInv update_compares_whole_broker update_deletes_before_adding _ _ _ h
 
 theorem run_connsInv (guards : List ExitGuard) (es : List DEvent) (s s' : DState)
     (hrun : run guards s es = some s') (h : ConnsInv s.pool) : ConnsInv s'.pool := by
@@ -531,7 +538,8 @@ open KV.Spec.FieldMaps KV.Gen.Mappings
 copies it from (tables regenerated from transport.go; tolerant to locals, see Spec/FieldMaps.lean) -/
 theorem layout_sources :
     allAgree makeLayout_Broker layoutBroker = true ∧ allAgree makeLayout_Cluster layoutCluster = true ∧
-    allAgree makeLayout_Topic layoutTopic = true ∧ allAgree makePartitions_Partition layoutPartition = true := by decide
+    allAgree makeLayout_Topic layoutTopic = true ∧ allAgree makePartitions_Partition layoutPartition = true ∧
+    allAgree filterMetadataResponse_ResponseTopic filterPlaceholder = true := by decide
 
 end fieldmaps
 
@@ -588,5 +596,54 @@ theorem route_leader_src (c : Cluster) (tps : List (String × List Int)) (b : In
     ∀ tn ps, (tn, ps) ∈ tps → ∀ p ∈ ps, LedBy c tn p b := by
   rw [leaderAll_src] at h
   exact route_leader c tps b hwf h
+
+/-! ## internal topics and unlisted APIs -/
+
+section misc
+open KV.RoundTrip KV.Lemmas.Routing
+
+theorem layout_topics_foldl_other (l : List MTopic) (acc : List (String × Topic)) (k : String)
+    (h : ∀ t ∈ l, t.internal = false → t.name ≠ k) :
+    (l.foldl (fun acc t => if t.internal then acc else ainsert acc t.name ⟨t.name, t.error, makePartitions t.partitions⟩) acc).lookup k
+      = acc.lookup k := by
+  induction l generalizing acc with
+  | nil => rfl
+  | cons t ts ih =>
+    simp only [List.foldl_cons]
+    rw [ih _ (fun x hx => h x (List.mem_cons_of_mem _ hx))]
+    by_cases hi : t.internal = true
+    · simp [hi]
+    · have hf : t.internal = false := by simpa using hi
+      simp only [hf, Bool.false_eq_true, ↓reduceIte]
+      exact lookup_ainsert_other acc t.name k _ (fun hk => h t List.mem_cons_self hf hk.symm)
+
+/-- **the layout never lists an internal topic** (makeLayout skips `IsInternal`), so `refreshMetadata` can never see
+one appear: a CreateTopics / auto-creating Metadata answer that names an internal topic without error makes roundTrip
+wait until the caller's context ends (observation replayed on the real code; outside C12's clauses) -/
+theorem layout_omits_internal (m : MResponse) (t : MTopic) (_ht : t ∈ m.topics) (_hint : t.internal = true)
+    (hnd : ∀ u ∈ m.topics, u.internal = false → u.name ≠ t.name) :
+    (makeLayout m).topics.lookup t.name = none ∧ refreshDone (makeLayout m) [t.name] = false := by
+  have h1 : (makeLayout m).topics.lookup t.name = none := by
+    simp only [makeLayout]
+    rw [layout_topics_foldl_other m.topics [] t.name hnd]
+    rfl
+  exact ⟨h1, by simp [refreshDone, h1]⟩
+
+/-- an API the broker does not list at all: the connection's version map has no entry, the request is written at
+version 0 when the client supports version 0 and refused client-side otherwise (no range was advertised, so the
+property demands nothing) -/
+theorem negotiated_unlisted (client : Nat → Int × Int) (table : List (Nat × Int × Int)) (key : Nat)
+    (h : ∀ e ∈ table, e.1 ≠ key) :
+    requestVersion client (negotiate client table) key
+      = if 0 < (client key).1 ∨ (client key).2 < 0 then none else some 0 := by
+  have hv : negotiatedVersion (negotiate client table) key = 0 := by
+    unfold negotiatedVersion negotiate lookupD
+    rw [negotiate_foldl_other client table key h]
+    rfl
+  unfold requestVersion
+  simp only [hv]
+  by_cases h1 : 0 < (client key).1 <;> by_cases h2 : (client key).2 < 0 <;> simp [h1, h2] <;> omega
+
+end misc
 
 end KV.Props.C12
